@@ -288,6 +288,12 @@ func (a *fnAnalysis) scan(body *ast.BlockStmt, results []string) {
 					a.eff.writes = append(a.eff.writes, a.pos(s)+" append("+exprString(s.Args[0])+", ...)")
 				}
 				return true
+			case ".Sum":
+				// hash.Sum(b) appends the digest to b: a write when b is caller-visible memory
+				if len(s.Args) > 0 && a.sharedExpr(s.Args[0]) {
+					a.eff.writes = append(a.eff.writes, a.pos(s)+" Sum("+exprString(s.Args[0])+") appends into its argument")
+				}
+				return true
 			}
 			anyShared := false
 			for _, arg := range s.Args {
